@@ -1252,13 +1252,17 @@ class FileStorage(
             gc = self._pack_gc
 
         oldpath = self._file_name + ".old"
-        if os.path.exists(oldpath):
-            os.remove(oldpath)
-        if self.blob_dir and os.path.exists(self.blob_dir + ".old"):
-            remove_committed_dir(self.blob_dir + ".old")
 
         have_commit_lock = False
         try:
+            # (inside the try: a failure here must reset
+            # _pack_is_in_progress too, else packing and undoLog() stay
+            # disabled for the life of the storage object)
+            if os.path.exists(oldpath):
+                os.remove(oldpath)
+            if self.blob_dir and os.path.exists(self.blob_dir + ".old"):
+                remove_committed_dir(self.blob_dir + ".old")
+
             pack_result = None
             try:
                 pack_result = self.packer(self, referencesf, stop, gc)
@@ -1292,14 +1296,20 @@ class FileStorage(
                 have_commit_lock = False
                 self._remove_blob_files_tagged_for_removal_during_pack()
 
+            if have_commit_lock:
+                self._commit_lock.release()
+                have_commit_lock = False
+
+            # Still part of this pack: another pack must not start (and
+            # look at the .old file) before it is removed.
+            if not self.pack_keep_old:
+                os.remove(oldpath)
+
         finally:
             if have_commit_lock:
                 self._commit_lock.release()
             with self._lock:
                 self._pack_is_in_progress = False
-
-        if not self.pack_keep_old:
-            os.remove(oldpath)
 
         with self._lock:
             self._save_index()
